@@ -473,8 +473,16 @@ fn gen_float<T: Fl + std::ops::Add<Output = T> + std::ops::Mul<Output = T>>(rng:
     let axis: [T; 3] = loop {
         let scale = 10f64.powi(rng.range_i64(-4, 4) as i32);
         let mut c = [0.0f64; 3];
-        for x in c.iter_mut() {
-            *x = if rng.chance(1, 6) { 0.0 } else { rng.f64_in(-1.0, 1.0) * scale };
+        if rng.chance(1, 5) {
+            // small-integer lattice (added after seeded change C04_N): components tie in magnitude
+            // ((1,1,0), (-3,3,0), (2,-2,2)), which a "pick the dominant component" step has to get right
+            for x in c.iter_mut() {
+                *x = rng.range_i64(-3, 3) as f64 * scale;
+            }
+        } else {
+            for x in c.iter_mut() {
+                *x = if rng.chance(1, 6) { 0.0 } else { rng.f64_in(-1.0, 1.0) * scale };
+            }
         }
         let l = (c[0] * c[0] + c[1] * c[1] + c[2] * c[2]).sqrt();
         if l < 1e-2 * scale {
